@@ -454,13 +454,27 @@ class HintSane(object, metaclass=_HintSaneMetaclass):
         self.typearg_to_hint = typearg_to_hint
 
         # Hash identifying this object, precomputed for efficiency.
-        self._hash = hash((
-            hint,
-            hint_recursable_to_depth,
-            is_check_expr_cacheable,
-            is_hint_parent_pep484585_subclass,
-            typearg_to_hint,
-        ))
+        try:
+            self._hash = hash((
+                hint,
+                hint_recursable_to_depth,
+                is_check_expr_cacheable,
+                is_hint_parent_pep484585_subclass,
+                typearg_to_hint,
+            ))
+        # If this hint is unhashable (e.g., "list[[]]", subscripted by an
+        # unhashable and thus invalid child hint), fall back to hashing the
+        # identifier of this hint instead. Doing so defers to the subsequent
+        # validation of this hint, which then raises a human-readable beartype
+        # exception rather than a non-human-readable builtin "TypeError" here.
+        except TypeError:
+            self._hash = hash((
+                id(hint),
+                hint_recursable_to_depth,
+                is_check_expr_cacheable,
+                is_hint_parent_pep484585_subclass,
+                typearg_to_hint,
+            ))
 
     # ..................{ DUNDERS                            }..................
     def __hash__(self) -> int:
